@@ -42,7 +42,7 @@ var c32OnlyOne = map[string]string{
 	"**": "TPL-only operator POW", "@": "TPL-only token AT",
 }
 
-const c32ScanResidual = "bec3136d"
+const c32ScanResidual = "e7b7ff31"
 
 func runC32(c *core.Check) {
 	prog := c.Load("./scanner", "./tpl/scanner", "./token", "./tpl/token")
